@@ -149,20 +149,24 @@ def contains(t, pred):
 # state
 
 class State:
-    __slots__ = ('store', 'heap', 'cond', 'trace', 'falsy', 'truthy')
+    __slots__ = ('store', 'heap', 'cond', 'trace', 'falsy', 'truthy',
+                 'cbase')
 
     def __init__(self, store=None, heap=None, cond=(), trace=(),
-                 falsy=frozenset(), truthy=frozenset()):
+                 falsy=frozenset(), truthy=frozenset(), cbase=0):
         self.store = store if store is not None else {}
         self.heap = heap if heap is not None else {}
         self.cond = cond
         self.trace = trace
         self.falsy = falsy
         self.truthy = truthy
+        # facts in cond[:cbase] about attribute reads were established
+        # before a loop whose body calls out: they are not reused inside it
+        self.cbase = cbase
 
     def copy(self):
         return State(dict(self.store), dict(self.heap), self.cond, self.trace,
-                     self.falsy, self.truthy)
+                     self.falsy, self.truthy, self.cbase)
 
     def emit(self, ev):
         self.trace = self.trace + (ev,)
@@ -314,10 +318,26 @@ def truth(t, st=None):
             return False
         if t in st.truthy:
             return True
-        for c, pol in st.cond:
+        base = st.cbase if st.cbase and _reads_attr(t) else 0
+        for c, pol in st.cond[base:]:
             if c == t:
                 return pol
     return None
+
+
+def _reads_attr(t):
+    return contains(t, lambda x: kind(x) == 'attr')
+
+
+def _body_calls_out(body):
+    for st in body:
+        for n in ast.walk(st):
+            if isinstance(n, ast.Call) and not (
+                    isinstance(n.func, ast.Name) and (
+                        n.func.id in _PURE_BUILTINS or
+                        n.func.id in _PURE_PREDICATES)):
+                return True
+    return False
 
 
 def static_type(t):
@@ -941,6 +961,9 @@ class Interp:
         """Names of the classes the raised term is known to be an instance
         of, or None when unknown."""
         t = exc
+        if kind(t) == 'fresh' and len(t) > 3 and t[3] == 'subscript':
+            # a failing subscript raises a LookupError
+            return ['KeyError', 'IndexError', 'LookupError', 'Exception']
         if kind(t) == 'call':
             t = t[2]
         if kind(t) == 'class':
@@ -1113,7 +1136,13 @@ class Interp:
         ncond = len(pre.cond)
         # facts about loop-written slots do not survive the havoc; facts
         # about other terms do
-        h_truthy, h_falsy = h.truthy, h.falsy
+        if _body_calls_out(s.body):
+            # a call in the body may change any attribute: what was known
+            # about attribute reads before the loop is not known at the
+            # top of a later iteration
+            h.truthy = frozenset(t for t in h.truthy if not _reads_attr(t))
+            h.falsy = frozenset(t for t in h.falsy if not _reads_attr(t))
+            h.cbase = len(pre.cond)
         body_states = []
         res = []
         self._last_loop_exits = True
